@@ -18,6 +18,9 @@ mod with_funcs;
 mod leap_seconds_file;
 #[cfg(feature = "std")]
 mod system_time;
+#[cfg(feature = "verif_seam")]
+#[doc(hidden)]
+pub mod verif_seam;
 
 #[cfg(kani)]
 mod kani_verif;
